@@ -272,7 +272,7 @@ PROPS = {
                       "validated by TLC against it - exhaustively over a 400-year cycle x 4 modes in the thorough tier.",
         "drivers": ["c03"],
         "mc": [{"module": "MC_C03.tla", "cfg": "MC_C03.cfg", "cfg_quick": "MC_C03_quick.cfg"}],
-        "apalache": [{"module": "CalLemmas.tla", "inv": "Lemmas"}],
+        "apalache": [{"module": "CalLemmas.tla", "inv": "Lemmas"}, {"module": "CalLemmas.tla", "inv": "WeekLemmas"}],
         "expect_ops": ["CalYear", "CalRange", "Conv"],
         "rule": "one case = one (mode spelling, year) with all 6 conversion directions for every day of that year, "
                 "or one batch of year-range queries, or one object-level conversion; non-trivial = year is a leap, "
